@@ -528,38 +528,7 @@ def main(tier, replay=None):
 
     states = trans = 0
     cmds = []
-    cases = []
     seen = set()
-    for kind, name, num, depth, what in runs:
-        r = C.run_tlc("MC_DataModel", name, workers=6, simulate=num, depth=depth, gendir=gd,
-                      timeout=3000, heap="6g")
-        cmds.append(r.cmd)
-        if r.violation:
-            raise C.ToolError("DataModel.tla: %s violated in %s — the reference and the transcription of the "
-                              "converters disagree inside the model; inspect before trusting replay.\n%s"
-                              % (r.violation, what, r.errtext[:3000]))
-        C.require_tlc_ok(r, what)
-        states += r.distinct or r.generated
-        trans += r.generated
-        new = 0
-        for o in r.replays:
-            if "value" not in o:
-                continue
-            key = json.dumps(o["value"], sort_keys=True)
-            if key in seen:
-                continue
-            seen.add(key)
-            cases.append(o)
-            new += 1
-        C.log("[c03] %s: %d states, %d value trees (%d new), %.0fs" % (what, r.distinct or r.generated,
-                                                                   len(r.replays), new, r.wall))
-        r.replays = []
-    shutil.rmtree(gd, ignore_errors=True)
-    if not cases:
-        raise C.ToolError("TLC emitted no value tree (vacuous run)")
-
-    items = [(o, sd, alter_demo and i == 7) for i, o in enumerate(cases)]
-    rows = C.proc_map(hp, work, items, chunk=250, timeout=30.0)
     evals = skipped = 0
     nontriv = set()
     with_expr = 0
@@ -567,50 +536,107 @@ def main(tier, replay=None):
     devcount = {}
     clusters = {}
     stale = {}
+    stale_n = {}
     bydepth = {}
     reinterp = 0
-    for x in rows:
-        if x[0] == "bad":
-            rep.disagree(x[1], key=None)
-            import re as _re
-            sig = x[1]["fmt"] + " " + x[1]["route"].split(":")[0] + ": " + _re.sub(r"[0-9]+", "N", str(x[1]["why"]))[:90]
-            clusters.setdefault(sig, []).append(x[1])
-        elif x[0] == "dev":
-            devcount[x[1]] = devcount.get(x[1], 0) + 1
-            rep.disagree(x[2], key=x[1])
-        elif x[0] == "stale":
-            k = "%s (%s)" % (x[1], x[2])
-            stale.setdefault(k, []).append(x[4])
-        else:
-            _, n, sk, nodes, vid, has_expr, sample, reint, dep = x
-            bydepth[str(dep)] = bydepth.get(str(dep), 0) + 1
-            reinterp += reint
-            evals += n
-            skipped += sk
-            with_expr += has_expr
-            if nodes >= 2:
-                nontriv.add(vid)
-            if sample and len(samples) < 6:
-                samples.append(sample)
+    ncases = [0]
+    reservoir = []
+    import random as _random
+    resrng = _random.Random(sd + 5)
+
+    def consume(rows):
+        nonlocal evals, skipped, with_expr, reinterp
+        for x in rows:
+            if x[0] == "bad":
+                rep.disagree(x[1], key=None)
+                import re as _re
+                sig = x[1]["fmt"] + " " + x[1]["route"].split(":")[0] + ": " + _re.sub(r"[0-9]+", "N", str(x[1]["why"]))[:90]
+                clusters.setdefault(sig, []).append(x[1])
+            elif x[0] == "dev":
+                devcount[x[1]] = devcount.get(x[1], 0) + 1
+                rep.disagree(x[2], key=x[1])
+            elif x[0] == "stale":
+                k = "%s (%s)" % (x[1], x[2])
+                stale_n[k] = stale_n.get(k, 0) + 1
+                if len(stale.setdefault(k, [])) < 5:
+                    stale[k].append(x[4])
+            else:
+                _, n, sk, nodes, vid, has_expr, sample, reint, dep = x
+                bydepth[str(dep)] = bydepth.get(str(dep), 0) + 1
+                reinterp += reint
+                evals += n
+                skipped += sk
+                with_expr += has_expr
+                if nodes >= 2:
+                    nontriv.add(hash(vid))
+                if sample and len(samples) < 6:
+                    samples.append(sample)
+
+    for kind, name, num, depth, what in runs:
+        # value trees are replayed in batches while TLC runs (bounded memory; the thorough tier explores millions)
+        buf = []
+        cnt = [0, 0]
+
+        def flush():
+            items, buf[:] = list(buf), []
+            if items:
+                consume(C.proc_map(hp, work, items, chunk=250, timeout=30.0))
+
+        def on_case(o):
+            cnt[0] += 1
+            if "value" not in o:
+                return
+            key = hash(json.dumps(o["value"], sort_keys=True))
+            if key in seen:
+                return
+            seen.add(key)
+            buf.append((o, sd, alter_demo and ncases[0] == 7))
+            ncases[0] += 1
+            if len(reservoir) < 3000:          # a seeded sample for the binary route
+                reservoir.append(o)
+            else:
+                j = resrng.randrange(ncases[0])
+                if j < 3000:
+                    reservoir[j] = o
+            cnt[1] += 1
+            if len(buf) >= 20000:
+                flush()
+
+        r = C.run_tlc("MC_DataModel", name, workers=6, simulate=num, depth=depth, gendir=gd,
+                      timeout=3000, heap="6g", on_replay=on_case)
+        cmds.append(r.cmd)
+        if r.violation:
+            raise C.ToolError("DataModel.tla: %s violated in %s — the reference and the transcription of the "
+                              "converters disagree inside the model; inspect before trusting replay.\n%s"
+                              % (r.violation, what, r.errtext[:3000]))
+        C.require_tlc_ok(r, what)
+        flush()
+        states += r.distinct or r.generated
+        trans += r.generated
+        C.log("[c03] %s: %d states, %d value trees (%d new), %.0fs" % (what, r.distinct or r.generated,
+                                                                   cnt[0], cnt[1], r.wall))
+    shutil.rmtree(gd, ignore_errors=True)
+    if not ncases[0]:
+        raise C.ToolError("TLC emitted no value tree (vacuous run)")
 
     for sig, cs in sorted(clusters.items(), key=lambda kv: -len(kv[1]))[:40]:
         C.log("[c03] unexplained x%d: %s   e.g. %s -> %r" % (len(cs), sig, json.dumps(cs[0]["value"], ensure_ascii=False)[:200],
                                                      cs[0].get("observed", "")[:120]))
     for k, vs in stale.items():
-        C.log("[c03] deviation %s predicted but the property held on %d observation(s), e.g. %s" % (k, len(vs), vs[0][:1500]))
+        C.log("[c03] deviation %s predicted but the property held on %d observation(s), e.g. %s" % (k, stale_n[k], vs[0][:1500]))
     # binary route on a sample (start-up ~0.4 s per process)
     ucg = C.ensure_ucg()
     nbin = 24 if tier == "quick" else 200
     import random
     rng = random.Random(sd)
-    pick = [cases[rng.randrange(len(cases))] for _ in range(nbin * 3)]
+    pick = [reservoir[rng.randrange(len(reservoir))] for _ in range(nbin * 3)]
     bin_cases = [(o, FORMATS[i % 4]) for i, o in enumerate(pick)]
     n_bin = binary_route(ucg, bin_cases[:nbin * 3], sd, rep) if nbin else 0
     evals += n_bin
 
     code = rep.finish()
     if not samples:
-        samples = [{"value": D.refine_value(cases[0]["value"], D.Refiner(sd, 0))}]
+        samples = [{"value": D.refine_value(reservoir[0]["value"], D.Refiner(sd, 0))}]
     C.write_evidence(PID, tier, "model_checking", {
         "states": states, "transitions": trans,
         "traces_validated_against_impl": evals,
@@ -622,12 +648,12 @@ def main(tier, replay=None):
                 "independent decoder and compared with the document(s) DataModel.tla predicts; one evaluation = "
                 "one (value, format, route) observation judged; non-trivial = distinct concrete value with >= 2 nodes",
         "samples": samples,
-        "value_trees": len(cases),
+        "value_trees": ncases[0],
         "value_trees_by_depth": dict(sorted(bydepth.items())),
         "value_trees_with_literal_form": with_expr,
         "program_route_skipped": skipped,
         "program_route_observed_value_substituted": reinterp,
-        "deviation_predicted_but_property_held": {k: len(v) for k, v in stale.items()},
+        "deviation_predicted_but_property_held": dict(stale_n),
         "binary_route_runs": n_bin,
         "known_deviation_cases": devcount,
         "exhaustive": False,
